@@ -1381,7 +1381,7 @@ func (c *control) dirAS(colon, at bool, params []any, p *slip.Printer) {
 func (c *control) dirT(colon, at bool, params []any) {
 	// A colon modifier indicates relative to a section which we can't
 	// determined so for now ignore.
-	colnum := 0
+	colnum := 1 // colrel with the @ modifier, also 1 by default
 	colinc := 1
 	colnum = c.getIntParam(0, params, colnum, true)
 	colinc = c.getIntParam(1, params, colinc, true)
@@ -1417,7 +1417,8 @@ func (c *control) dirT(colon, at bool, params []any) {
 			from = len(c.out) - start
 		}
 		target = colnum * colinc
-		if target < from {
+		if target <= from {
+			// Already at or beyond the column, move on to the next stop.
 			target = from/colinc*colinc + colinc
 		}
 	}
